@@ -17,6 +17,14 @@ c_Alpha ==
           [] st = "markdown" -> {"x", "S", "N", "#"}
           [] OTHER           -> {"x", "y", "S", "N"}]
 
+\* quick tier: the strategies that never look at newlines get a three-symbol alphabet
+c_AlphaQuick ==
+    [st \in c_StratsAll |->
+        CASE st = "code"     -> {"x", "S", "N", "F"}
+          [] st = "markdown" -> {"x", "S", "N", "#"}
+          [] st \in {"fixed", "chunker"} -> {"x", "y", "S"}
+          [] OTHER           -> {"x", "y", "S", "N"}]
+
 \* wider alphabets for the thorough tier
 c_AlphaWide ==
     [st \in c_StratsAll |->
